@@ -180,9 +180,38 @@ var (
 	reSSADialog = regexp.MustCompile(`(?m)^Dialogue: `)
 )
 
+// lastWord returns the last ASCII alphanumeric word of the last cue's text ("" if there is none): whatever
+// the writer's formatting, a complete SRT/WebVTT/SSA document carries it within its final bytes.
+func lastWord(s *astisub.Subtitles) string {
+	if s == nil || len(s.Items) == 0 {
+		return ""
+	}
+	it := s.Items[len(s.Items)-1]
+	for l := len(it.Lines) - 1; l >= 0; l-- {
+		for k := len(it.Lines[l].Items) - 1; k >= 0; k-- {
+			t := it.Lines[l].Items[k].Text
+			end := -1
+			for i := len(t) - 1; i >= 0; i-- {
+				c := t[i]
+				alnum := c >= '0' && c <= '9' || c >= 'a' && c <= 'z' || c >= 'A' && c <= 'Z'
+				if alnum && end < 0 {
+					end = i + 1
+				}
+				if !alnum && end >= 0 {
+					return t[i+1 : end]
+				}
+			}
+			if end >= 0 {
+				return t[:end]
+			}
+		}
+	}
+	return ""
+}
+
 // completeSink checks, without reusing the writer, that the bytes handed to
 // the sink form a structurally complete document with c cues.
-func completeSink(writer string, out []byte, c int) string {
+func completeSink(writer string, out []byte, c int, tail string) string {
 	switch writer {
 	case "stl":
 		if len(out) != 1024+128*c {
@@ -192,22 +221,22 @@ func completeSink(writer string, out []byte, c int) string {
 		if n := len(reSRTTiming.FindAll(out, -1)); n != c {
 			return fmt.Sprintf("SRT output has %d timing lines, want %d", n, c)
 		}
-		if !bytes.HasSuffix(out, []byte("\n")) {
-			return "SRT output does not end with a line terminator"
+		if tail != "" && !bytes.Contains(out[max(0, len(out)-240):], []byte(tail)) {
+			return fmt.Sprintf("SRT output does not end with the text of the last cue (%q not in the final bytes)", tail)
 		}
 	case "vtt":
 		if n := len(reVTTTiming.FindAll(out, -1)); n != c {
 			return fmt.Sprintf("WebVTT output has %d timing lines, want %d", n, c)
 		}
-		if !bytes.HasSuffix(out, []byte("\n")) {
-			return "WebVTT output does not end with a line terminator"
+		if tail != "" && !bytes.Contains(out[max(0, len(out)-240):], []byte(tail)) {
+			return fmt.Sprintf("WebVTT output does not end with the text of the last cue (%q not in the final bytes)", tail)
 		}
 	case "ssa":
 		if n := len(reSSADialog.FindAll(out, -1)); n != c {
 			return fmt.Sprintf("SSA output has %d Dialogue lines, want %d", n, c)
 		}
-		if !bytes.HasSuffix(out, []byte("\n")) {
-			return "SSA output does not end with a line terminator"
+		if tail != "" && !bytes.Contains(out[max(0, len(out)-240):], []byte(tail)) {
+			return fmt.Sprintf("SSA output does not end with the text of the last cue (%q not in the final bytes)", tail)
 		}
 	case "ttml", "ttml-noindent":
 		d := xml.NewDecoder(bytes.NewReader(out))
@@ -245,24 +274,30 @@ func completeSink(writer string, out []byte, c int) string {
 
 // evalWrite runs one writer call on a fresh build of the list.
 func evalWrite(src ListSource, writer string, plan simio.WritePlan) (cls string, errText string, w *simio.Writer, cues int) {
+	cls, errText, w, cues, _ = evalWriteTail(src, writer, plan)
+	return
+}
+
+func evalWriteTail(src ListSource, writer string, plan simio.WritePlan) (cls string, errText string, w *simio.Writer, cues int, tail string) {
 	s := src.Build()
 	if s == nil {
-		return "nolist", "", nil, 0
+		return "nolist", "", nil, 0, ""
 	}
+	tail = lastWord(s)
 	w = simio.NewWriter(plan)
 	err, p := api.Write(writer, s, w)
 	switch {
 	case p != "":
-		return "panic", p, w, len(s.Items)
+		return "panic", p, w, len(s.Items), tail
 	case err != nil:
-		return "error", err.Error(), w, len(s.Items)
+		return "error", err.Error(), w, len(s.Items), tail
 	}
-	return "ok", "", w, len(s.Items)
+	return "ok", "", w, len(s.Items), tail
 }
 
 func checkC18Write(sc C18Scenario) *Violation {
 	src := *sc.Source
-	cls0, _, w0, cues := evalWrite(src, sc.Writer, simio.WritePlan{})
+	cls0, _, w0, cues, tail := evalWriteTail(src, sc.Writer, simio.WritePlan{})
 	if cls0 != "ok" {
 		return nil // a writer that fails on this list without any fault is outside C18
 	}
@@ -277,7 +312,7 @@ func checkC18Write(sc C18Scenario) *Violation {
 			Detail:    fmt.Sprintf("list=%s writer=%s fault=%+v: %s", src.Name(), sc.Writer, sc.WFault, why), Scenario: b}
 	}
 	if sc.Kind == "complete" {
-		if why := completeSink(sc.Writer, w0.Buf, cues); why != "" {
+		if why := completeSink(sc.Writer, w0.Buf, cues, tail); why != "" {
 			return mk("incomplete-output", "writer returned nil but "+why)
 		}
 		return nil
@@ -382,7 +417,7 @@ func checkC18File(name, dir string) (v *Violation, note string) {
 		if w == "vtt" {
 			w = "vtt"
 		}
-		if why := completeSink(w, b, 3); why != "" {
+		if why := completeSink(w, b, 3, "2"); why != "" {
 			return mk("Write returned nil but " + why), ""
 		}
 		return nil, ""
@@ -587,7 +622,7 @@ func RunC18(cfg Config) (*ShardResult, error) {
 				continue
 			}
 			sr := root.Derive("c18w-"+writer+"-"+src.Name(), si) // per (source, writer): draws must not depend on the sharding
-			cls0, _, w0, cues := evalWrite(src, writer, simio.WritePlan{})
+			cls0, _, w0, cues, tail := evalWriteTail(src, writer, simio.WritePlan{})
 			if cls0 != "ok" {
 				res.Extra["write_pairs_failing_without_fault"]++
 				continue
@@ -599,7 +634,7 @@ func RunC18(cfg Config) (*ShardResult, error) {
 			if seen.add(Key64("complete", sh, writer)) {
 				res.Distinct++
 			}
-			if why := completeSink(writer, w0.Buf, cues); why != "" {
+			if why := completeSink(writer, w0.Buf, cues, tail); why != "" {
 				if addV(checkC18Write(csc)) {
 					return res, nil
 				}
